@@ -9,6 +9,7 @@ package combinator
 import (
 	"sync/atomic"
 
+	"github.com/opsidian/parsley/ast"
 	"github.com/opsidian/parsley/data"
 	"github.com/opsidian/parsley/parser"
 	"github.com/opsidian/parsley/parsley"
@@ -29,6 +30,12 @@ func Memoize(p parsley.Parser) parser.Func {
 		}
 
 		node, cp, err := p.Parse(ctx, leftRecCtx.Inc(parserIndex), pos)
+		// The result is stored in the cache and handed to every later caller. Clip the capacity of an
+		// alternative list so that a consumer appending to it (ast.AppendNode) gets a copy instead of
+		// writing into the backing array shared with the cache and the other consumers.
+		if nl, ok := node.(ast.NodeList); ok {
+			node = nl[:len(nl):len(nl)]
+		}
 		leftRecCtx = leftRecCtx.Filter(cp)
 
 		res := &parsley.Result{
